@@ -434,10 +434,10 @@ def judge_async_run(tape, forest, problems):
 
 
 def c02_specs(tier, seed):
-    n = 400 if tier == "quick" else 8000
+    n = 2000 if tier == "quick" else 20000
     B = 20
     specs = [{"part": "async", "seed": seed, "lo": i, "hi": min(n, i + B)} for i in range(0, n, B)]
-    m = 200 if tier == "quick" else 4000
+    m = 1000 if tier == "quick" else 10000
     specs += [{"part": "threads", "seed": seed, "lo": i, "hi": min(m, i + B)} for i in range(0, m, B)]
     return specs
 
